@@ -180,7 +180,7 @@ func runHistories(rn *runner, idx *int64) {
 				}
 				k := int64(0)
 				do := func(opts string, hist []Step) {
-					for ei, e := range elems {
+					for ei, e := range elemsFor(p.routine) {
 						k++
 						cs := &Case{Routine: p.routine, Opts: opts, Elem: e, R: l.r, C: l.c, Base: base, Hist: hist}
 						rn.exec(cs, rank+100000*int64(len(hist))+k, over, *idx%257 == 0 && pi == 1 && ei == 0 && k%7 == 1)
@@ -223,10 +223,10 @@ func runHistories(rn *runner, idx *int64) {
 			}
 		}
 		c.Count("matrices:"+lname, done)
-		c.Count("configurations(x2 element types):junk-filled caller buffers, one call", nH0)
-		c.Count("configurations(x2 element types):two-call histories", nH1)
+		c.Count("configurations(x element types of the routine):junk-filled caller buffers, one call", nH0)
+		c.Count("configurations(x element types of the routine):two-call histories", nH1)
 		if thorough {
-			c.Count("configurations(x2 element types):three-call histories", nH2)
+			c.Count("configurations(x element types of the routine):three-call histories", nH2)
 		}
 	}
 }
@@ -351,16 +351,11 @@ func minimiseHist(cs *Case, class, what string) (string, string, string) {
 				}
 			}
 		}
-		other := "Real64"
-		if cur.Elem == "Real64" {
-			other = "Float64"
-		}
-		e = cur.Elem
-		t := cur
-		t.Elem = other
-		if fails(&t) {
-			e = "any"
-		}
+		e = elemKey(cur.Routine, cur.Elem, func(el string) bool {
+			t := cur
+			t.Elem = el
+			return fails(&t)
+		})
 		o = cur.optLabel()
 	}
 	if len(cur.Hist) > 0 || hasTok(cur.Opts, "Junk") || hasTok(cur.Opts, "JunkNaN") {
